@@ -259,6 +259,15 @@ theorem sorted_perm {l₁ l₂ : List Rat} (h : l₁.Perm l₂) : sorted l₁ = 
   · exact sorted_pairwise l₂
   · exact (sorted_perm_self l₁).trans (h.trans (sorted_perm_self l₂).symm)
 
+/-- the sorted list is the unique ascending permutation (used to evaluate concrete examples: `mergeSort`
+    is defined by well-founded recursion and does not reduce in the kernel) -/
+theorem sorted_eq_of {l s : List Rat} (hp : s.Perm l) (hs : s.Pairwise (fun a b => a ≤ b)) : sorted l = s := by
+  apply List.Perm.eq_of_pairwise (le := fun a b => a ≤ b)
+  · intro a b _ _ hab hba; exact Rat.le_antisymm hab hba
+  · exact sorted_pairwise l
+  · exact hs
+  · exact (sorted_perm_self l).trans hp.symm
+
 theorem quantile_perm (q : Rat) {l₁ l₂ : List Rat} (h : l₁.Perm l₂) : quantile q l₁ = quantile q l₂ := by
   simp only [quantile, sorted_perm h]
 
